@@ -23,7 +23,7 @@ def plan(tier, seed):
 
 def thresholds(tier):
   t = {"designs": 150, "ordered_pairs_checked": 3000, "discriminating_stale_read_comparisons": 1000, "passes_checked": 5000,
-       "designs_with_pairs": 100, "rejections_checked": 16, "greenlet_orderings_checked": 2000, "greenlet_designs": 60, "explicit_constraints_checked": 2000, "method_orderings_checked": 1500, "method_designs_with_required_orders": 80}
+       "designs_with_pairs": 100, "rejections_checked": 16, "rejections_beside_a_legal_loop": 40, "opened_cycle_controls_accepted": 16, "greenlet_orderings_checked": 2000, "greenlet_designs": 60, "explicit_constraints_checked": 2000, "method_orderings_checked": 1500, "method_designs_with_required_orders": 80}
   if tier == "thorough":
     t = {k: v * 15 for k, v in t.items()}
     t["rejections_checked"] = 100          # the rejection stream has a fixed size per shard
@@ -68,6 +68,73 @@ def check_rejection(sh, rng):
         sh.count("rejections_checked"); sh.count("rejection:" + type(e).__name__)
   finally:
     G.unload(mod)
+  check_rejection_beside_loop(sh, rng)
+
+
+LOOPCYC_SRC = '''
+from pymtl3 import *
+class LoopCycTop(Component):
+  def construct(s):
+    s.in_ = InPort(8); s.a = Wire(8); s.b = Wire(8); s.out = OutPort(8); s.log = []
+    s.k = [Wire(8) for _ in range(%(n)d)]
+%(loops)s
+%(blocks)s
+    s.add_constraints( %(cons)s )
+'''
+
+
+def check_rejection_beside_loop(sh, rng):
+  """the pure constraint cycle sits in a design that ALSO holds legal, converging combinational loops (strongly connected groups
+  that do involve signals), up- or downstream of the cycle or unrelated to it: the cycle must still be rejected by every pass
+  group, and the same design with the cycle opened must be accepted by the pass groups that schedule loops, with every remaining
+  explicit constraint honoured (control: the rejection is due to the cycle, not to the loop)"""
+  n = rng.randrange(2, 5)
+  names = [f"up_{c}" for c in rng.sample("pqrstuvw", n)]
+  nloops = rng.randrange(1, 3)
+  where = rng.choice(["upstream", "downstream", "unrelated"])
+  loops = []
+  for j in range(nloops):
+    loops += [f"    s.la{j} = Wire(8); s.lb{j} = Wire(8)", "    @update", f"    def loop_a{j}():",
+              f"      s.la{j} @= s.lb{j} | s.{'k[0]' if where == 'downstream' and j == 0 else 'in_'}",
+              "    @update", f"    def loop_b{j}():", f"      s.lb{j} @= s.la{j}"]
+  blocks = []
+  for i, nm in enumerate(names):
+    src = "s.la0" if (where == "upstream" and i == rng.randrange(n)) or (where == "upstream" and i == 0) else "s.in_"
+    blocks += ["    @update", f"    def {nm}():", f"      s.k[{i}] @= {src} + {i}", f"      s.log.append('{nm}')"]
+  cyc = [f"U({names[i]}) < U({names[(i + 1) % n]})" for i in range(n)]
+  opened = cyc[:-1]
+  for closed in (True, False):
+    src = LOOPCYC_SRC % {"n": n, "loops": "\n".join(loops), "blocks": "\n".join(blocks), "cons": ", ".join(cyc if closed else opened)}
+    mod = G.load_source(src, "c02loopcyc")
+    try:
+      for mode in PASS_MODES:
+        top = mod.LoopCycTop()
+        try:
+          simmon.apply_mode(top, mode, rng)
+          top.in_ @= 5; top.log.clear()
+          top.sim_eval_combinational()
+        except Exception as e:
+          if closed: sh.count("rejections_checked"); sh.count("rejections_beside_a_legal_loop"); sh.count("rejection:" + type(e).__name__)
+          elif mode in ("default", "mamba"):
+            sh.violation("legal-loop-design-with-acyclic-constraints-was-rejected", {"mode": mode, "error": repr(e)[:300], "source": src})
+            return
+          continue
+        if closed:
+          sh.violation("pure-constraint-cycle-was-scheduled-instead-of-rejected", {"constraints": ", ".join(cyc), "mode": mode, "beside": f"{nloops} legal combinational loop(s) {where}",
+                       "executed": list(top.log), "source": src})
+          return
+        sh.count("opened_cycle_controls_accepted")
+        seen = list(top.log)
+        last = {nm: max(i for i, x in enumerate(seen) if x == nm) for nm in names if nm in seen}
+        first = {nm: seen.index(nm) for nm in names if nm in seen}
+        for i in range(n - 1):
+          a, b = names[i], names[i + 1]
+          # blocks inside an iterated group may run several times: the constraint orders the final executions
+          if a in last and b in last and not (first[a] < first[b] or last[a] < last[b]):
+            sh.violation("explicit-constraint-not-honoured-beside-loop", {"mode": mode, "required": f"{a} before {b}", "executed": seen, "source": src})
+            return
+    finally:
+      G.unload(mod)
 
 
 CHAIN_SRC = '''
